@@ -56,6 +56,16 @@ FIXED = [
     "fixed: property=C18 52564f9 the pole grid was laid out before the layout from an entity-count estimate: about a third of the consumers of generated programs lay outside every supply area",
     "fixed: property=C04 75cac69 `m.write((m.read() != 6) : (m.read() + 3))`-style loops on one signal type: the colouring left the sum on the red network the hold gate is locked to and only logged the conflict (decider read m + m+3)",
     "fixed: property=C09 5a19c8d a user-placed combinator lost its `direction` property in the export and sat off the tile grid (centre computed for the rotated footprint)",
+    "fixed: property=C02 256541e `(b > 5) : k` with `int k` output 1 instead of k for every passing member",
+    "fixed: property=C02 dd45d41 `(b * 2)[\"signal-A\"] | \"signal-X\"` folded the projection into the each-combinator and summed all members into signal-X",
+    "fixed: property=C02 180d736 `(s > 2 && s < 9) : b` and `f : b` (compound / named condition gating a bundle) produced an empty bundle",
+    "fixed: property=C02 0f7aa36 a selection `b[\"t\"]` used as a bundle-literal member, as the scalar of an each-operation / filter or as a gating condition connected the whole wire of b: other members leaked or were iterated over",
+    "fixed: property=C02 867a872 an anonymous bundle literal used as an operand (`{...} + 1`, `{...}[\"signal-A\"] + 2`) was folded / inlined as the scalar constant 0",
+    "fixed: property=C02 95a486e `(4 != s) : b` (literal on the left of a gating condition) leaked s into the gated bundle",
+    "fixed: property=C02 41e079a `b * s` next to `(s > 2) : b` (a scalar used as each-operand scalar and as gating condition, or a bundle iterated and gated) needed two colours for one source: one result was empty or leaked; also `(b[\"signal-A\"] > 5) : b` read the selected signal on the wrong colour",
+    "fixed: property=C01 41e079a `i0 + i2 + i1 + i0` (a source that is a member of a + wire merge and also a direct operand of the merge's consumer) lost a term: the merge operand was read on one colour only",
+    "fixed: property=C02 6b6b8df `(r * 3)[\"a\"] * r[\"b\"]` (scalar operation on signals selected from two bundle wires) joined both wires on one colour: operands summed, each-combinator fed back into itself (did not settle)",
+    "fixed: property=C10 dfc3dde `{ r[\"a\"], (\"q\", 9) } * r[\"a\"]`: CSE merged the two per-use copies of the selected member into one source (one colour), the member was counted twice with optimisation on",
     "fixed: property=C01 832242e `(c : k) && x` / `(c : k) || (d : j)` with constants other than 0/1 took the boolean shortcut (x*y, (x+y)>0) and yielded k or 0 instead of 1",
     "fixed: property=C01 7701d37 a comparison with an integer literal on the left (`3 < a`) was emitted as `signal-0 < a`",
 ]
@@ -78,16 +88,6 @@ add("C01", K1, K1_WHAT, "K1",
           ["input", "i3", "signal-lock", 48],
           ["sig", "x", ["b", "-", ["v", "i3"], ["b", "*", ["b", "-", ["v", "i0"], ["v", "i2"]], ["v", "i3"]]]]],
          "prec_pairs"))
-add("C01", "C01-merge-member-reused-by-same-sink",
-    "a source that is a member of a `+` wire merge and also a direct operand of the merge's consumer is wired "
-    "once: `i0 + i2 + i1 + i0` loses terms (both operands of the adder select the colour carrying i0 only)",
-    "wire merge + repeated simple source; colouring is per (source, signal), so the merged edge and the direct "
-    "edge of the same source cannot be separated",
-    case([["input", "i0", "repair-pack", -78], ["input", "i1", "repair-pack", 12], ["input", "i2", "repair-pack", 7],
-          ["sig", "total", ["b", "+", ["b", "+", ["b", "+", ["v", "i0"], ["v", "i2"]], ["v", "i1"]], ["v", "i0"]]]],
-         "wire_merge_repeated_member"))
-
-
 add("C01", "C01-more-same-named-sources-than-wire-colours",
     "a combinator that reads three distinct same-named signals (`v1 <= v3 : i3`, all on one signal type) cannot "
     "be wired with two colours; the planner logs the unresolved conflict and emits a circuit that sums them",
@@ -95,7 +95,7 @@ add("C01", "C01-more-same-named-sources-than-wire-colours",
     "same-named operands from distinct producers",
     case([["input", "i0", "signal-lightning", -183], ["input", "i3", "signal-left-parenthesis", 1],
           ["sig", "v0", ["c", ">=", ["v", "i3"], ["v", "i0"]]], ["sig", "v1", ["b", "+", ["v", "v0"], ["n", 2]]],
-          ["sig", "v3", ["b", "+", ["v", "i3"], ["v", "i3"]]],
+          ["sig", "v3", ["b", "*", ["v", "i3"], ["n", 3]]],
           ["sig", "v4", ["s", ["c", "<=", ["v", "v1"], ["v", "v3"]], ["v", "i3"]]]],
          "dag_same_typed"))
 
